@@ -44,6 +44,15 @@ def judge_history(steps, res):
             return "run %d: the two directories differ after the run: A=%s B=%s" % (ri, sorted(A), sorted(B))
         if sorted(r.get("archive_entries", [])) != sorted(A):
             return "run %d: the recorded common state lists %s but both directories hold %s" % (ri, sorted(r.get("archive_entries", [])), sorted(A))
+        dg = r.get("archive_digests")
+        if dg is not None and dg != A:
+            diff = sorted(k for k in A if dg.get(k) != A[k])
+            return "run %d: the recorded common state holds another digest than the tree for %s" % (ri, diff)
+        import re as _re
+        for p_, h in A.items():
+            m = _re.search(r"\.conflict-vhost-([0-9a-f]{12})$", p_)
+            if m and m.group(1) != h[:12]:
+                return "run %d: conflict copy %r is named after digest %s.. but holds a version with digest %s.." % (ri, p_, m.group(1), h[:12])
         # C02 / C07: which versions may have disappeared
         base = {} if (prev is None or damaged) else prev
         for side, mine, other in (("A", bA, bB), ("B", bB, bA)):
@@ -77,7 +86,7 @@ def histories():
     H(S("A", "p", "x"), S("B", "p", "x"), RUN, S("A", "p", None), S("B", "p", None), RUN, S("B", "p", "x"), RUN)
     H(S("A", "dir/p", "x"), S("B", "dir/p", "x"), S("A", "keep", "k"), RUN, S("A", "dir/p", None), RUN, S("B", "dir/p", "x"), RUN)
     # damaged / foreign / missing archive: never a delete
-    for how in ("delete", "empty", "truncate", "garbage", "version", "foreign"):
+    for how in ("delete", "empty", "truncate", "garbage", "version", "version0", "foreign"):
         H(S("A", "p", "1"), S("B", "p", "1"), S("A", "q", "1"), S("B", "q", "1"), RUN, S("A", "p", None), S("B", "q", "2"), {"archive": how}, RUN, RUN)
     # a .bak generation exists (two runs) when the main archive is lost: it must not be trusted
     H(S("A", "keep", "k"), S("B", "keep", "k"), S("A", "rep", "r"), RUN, S("B", "rep", None), RUN, S("A", "rep", "r"), {"archive": "delete"}, RUN)
@@ -85,6 +94,12 @@ def histories():
     # identical independent change on both sides (base must move to it), then one side reverts / the other deletes or diverges
     H(S("A", "f", "v1"), S("B", "f", "v1"), RUN, S("A", "f", "v2"), S("B", "f", "v2"), RUN, S("A", "f", "v1"), S("B", "f", None), RUN)
     H(S("A", "f", "v1"), S("B", "f", "v1"), RUN, S("A", "f", "v2"), S("B", "f", "v2"), RUN, S("A", "f", "v1"), S("B", "f", "v3"), RUN)
+    # delete on A / modify on B (the survivor is B) and the mirror image; then the deleter re-creates the old bytes
+    H(S("A", "f", "seed"), S("B", "f", "seed"), RUN, S("A", "f", None), S("B", "f", "edited"), RUN, RUN, S("A", "f", "seed"), RUN)
+    H(S("A", "f", "seed"), S("B", "f", "seed"), RUN, S("B", "f", None), S("A", "f", "edited"), RUN, RUN, S("B", "f", "seed"), RUN)
+    # two conflicts on one path with the same winner and different losers: both losers must survive
+    H(S("A", "f", "seed"), S("B", "f", "seed"), RUN, S("A", "f", "L1"), S("B", "f", "zzW"), RUN, S("B", "f", "interim"), RUN, S("A", "f", "L2"), S("B", "f", "zzW"), RUN)
+    H(S("A", "f", "seed"), S("B", "f", "seed"), RUN, S("B", "f", "L1"), S("A", "f", "zzW"), RUN, S("A", "f", "interim"), RUN, S("B", "f", "L2"), S("A", "f", "zzW"), RUN)
     # dry run, swapped roots
     H(S("A", "p", "1"), S("B", "q", "2"), {"run": "dry"}, RUN)
     H(S("A", "p", "1"), S("B", "p", "2"), {"swap": True}, RUN)
@@ -163,6 +178,49 @@ def sync_order_check(R, oid, key):
     return {"confirmed": False, "detail": "strace: the staged copy is fsync'ed before the rename"}
 
 
+def stale_staging_check(R, oid, key):
+    """a `.copia-tmp` left behind by an interrupted run (empty, newer than the source) must never be published"""
+    for act, a, b, want_side, want in (("PropagateAtoB", {"f.txt": hx(b"new-content")}, {"f.txt": hx(b"old"), "f.txt.copia-tmp": ""}, "B", hx(b"new-content")),
+                                       ("PropagateBtoA", {"f.txt": hx(b"old"), "f.txt.copia-tmp": ""}, {"f.txt": hx(b"new-content")}, "A", hx(b"new-content"))):
+        case = {"fn": "bisync_apply", "a": a, "b": b, "rel": "f.txt", "action": act}
+        for prof in ("dev", "release"):
+            r = run_cases([case], prof)[0]
+            got = r.get(want_side, {}).get("f.txt")
+            if "panic" in r or (r.get("ok") and got != want):
+                c = dict(case)
+                c["observed"] = {prof: {k: v for k, v in r.items() if k != "before"}}
+                c["deviation"] = "a stale staging file was published: %s/f.txt holds %r, expected the propagated content" % (want_side, got)
+                return {"confirmed": True, "replay_path": R.save_replay(oid, c), "key": key,
+                        "detail": "bisync %s with a leftover f.txt.copia-tmp (%s): %s/f.txt = %r instead of the source's bytes" % (act, prof, want_side, got)}
+    return {"confirmed": False, "detail": "a leftover staging file is overwritten by a fresh copy before the rename"}
+
+
+def edited_conflict_copy_check(R, oid, key):
+    """history: a conflict leaves `f.conflict-<host>-<H(L)>` on both sides; the user edits that copy on one side; the same
+    loser L then loses again -> the copy is named the same and overwrites the edit before it was propagated"""
+    for loser_side, winner_side in (("A", "B"), ("B", "A")):
+        steps = [{"set": ["A", "f", hx(b"seed")]}, {"set": ["B", "f", hx(b"seed")]}, {"run": True},
+                 {"set_ranked": [loser_side, "f", 2]}, {"set_ranked": [winner_side, "f", 6]}, {"run": True},
+                 {"edit_conflict": [loser_side, "f", hx(b"my edits to the preserved copy")]},
+                 {"set_ranked": [loser_side, "f", 2]}, {"set_ranked": [winner_side, "f", 9]}, {"run": True}, {"run": True}]
+        case = {"fn": "bisync_history", "steps": steps}
+        for prof in ("dev", "release"):
+            r = run_cases([case], prof)[0]
+            lost = False
+            runs = r.get("runs", [])
+            if len(runs) >= 3:
+                edited = hx(b"my edits to the preserved copy")
+                after = runs[2]
+                lost = not any(v.get("data") == edited for v in after["A"].values()) or not any(v.get("data") == edited for v in after["B"].values())
+            if lost:
+                c = dict(case)
+                c["observed"] = {prof: {"A": {k: v["data"] for k, v in runs[2]["A"].items()}, "B": {k: v["data"] for k, v in runs[2]["B"].items()}}}
+                c["deviation"] = "the user's edit of the conflict copy (present on %s when the run started, not the base version) exists on neither/only one side afterwards" % loser_side
+                return {"confirmed": True, "replay_path": R.save_replay(oid, c), "key": key,
+                        "detail": "bisync history (edit a conflict copy, then the same version loses again; loser on %s, %s): the edited copy is overwritten by the re-created conflict copy and lost" % (loser_side, prof)}
+    return {"confirmed": False, "detail": "an edited conflict copy survives a repeated conflict with the same loser"}
+
+
 def rename_source_check(R, oid, key):
     """real system calls of one both-changed conflict step and one propagation: every rename must move a `.copia-tmp`
     staging file; a live path is never renamed away or unlinked"""
@@ -234,8 +292,13 @@ def make_witness(R, pid, what):
         key = "%s/%s/%s" % (pid, what, name[:60])
         if "flushed-to-stable-storage" in name:
             return sync_order_check(R, oid, key)
+        if "never-overwrites-a-DIFFERENT-file" in name:
+            return edited_conflict_copy_check(R, oid, "%s/apply/conflict-copy-overwrites-an-edited-conflict-copy" % pid)
         if what == "apply":
             r = rename_source_check(R, oid, key)
+            if r["confirmed"]:
+                return r
+            r = stale_staging_check(R, oid, key)
             if r["confirmed"]:
                 return r
         if what == "run" and "saved-only-after" in name:
